@@ -524,8 +524,42 @@ def evaluation(repo: Repo, rep: Report) -> None:
             rep.finding("EXC-7", file, fn, f"{kind} {label}", msg or "")
 
 
+class _Hold:
+    """holds back the findings of the proof rules until EXC-7 has had its say"""
+
+    def __init__(self, rep: Report):
+        self.rep = rep
+        self.held: List[Tuple[Any, ...]] = []
+
+    def __getattr__(self, name: str) -> Any:
+        return getattr(self.rep, name)
+
+    def finding(self, rule: str, *a: Any, **k: Any) -> None:
+        if rule in PROOF_RULES:
+            self.held.append((rule,) + a)
+            self.rep.rule_counts[rule] = self.rep.rule_counts.get(rule, 0) + 1  # counts as an examined instance
+        else:
+            self.rep.finding(rule, *a, **k)
+
+
+# rules whose failure means "not proved" rather than "refuted": alone they give exit 2, with an EXC-7 witness in the same
+# function they are reported as the location of the defect
+PROOF_RULES = ("EXC-1", "EXC-2", "EXC-3", "EXC-5")
+
+
 def run(repo: Repo, rep: Report) -> None:
-    static_rules(repo, rep)
+    hold = _Hold(rep)
+    static_rules(repo, hold)  # type: ignore[arg-type]
+    before = len(rep.findings)
     evaluation(repo, rep)
+    witnessed = len(rep.findings) > before
+    for h in hold.held:
+        rule, file, func, construct, message = h[:5]
+        line = h[5] if len(h) > 5 else None
+        rep.rule_counts[rule] -= 1  # re-counted by finding()/undecide() below
+        if witnessed:
+            rep.finding(rule, file, func, construct, message, line)
+        else:
+            rep.undecide(rule, f"{file}::{func} {construct}: {message} (not proved; EXC-7 found no input that raises)")
     rep.assume("ValueError from int()/Rooms/allowed_puzzles is allowed by the property; non-termination and memory are not decided; "
                "the EXC-7 alphabet has one representative per character class the decoders test (digit ranges, a-f, g-z, - + . _, blank, upper case, non-ASCII digit)")
